@@ -1005,4 +1005,447 @@ theorem parseExternal_ok {gdone : List String} {st : BState} (h : PreInv gdone s
         parseId_ok _ _ (show NF (Tok.sym "(" :: _) by simp), hbt, expectSym_ok _ _ hT,
         bind, Except.bind, pure, Except.pure, e1']
 
+def externsToks (es : List Extern) : List Tok := (es.map externToks).flatten
+def varsToks (vs : List GVar) : List Tok := (vs.map varToks).flatten
+def funcsToks (fmt : Nat → List Char) (fs : List Func) : List Tok := (fs.map (funcToks fmt)).flatten
+
+theorem declStart_externs (es : List Extern) (T : Toks) (hT : DeclStart T) : DeclStart (externsToks es ++ T) := by
+  cases es with
+  | nil => simpa [externsToks] using hT
+  | cons e r =>
+    exact Or.inl ⟨"external", _, by
+      rw [show externsToks (e :: r) = externToks e ++ externsToks r from by simp [externsToks], externToks_eq]; rfl⟩
+
+theorem declStart_vars (vs : List GVar) (T : Toks) (hT : DeclStart T) : DeclStart (varsToks vs ++ T) := by
+  cases vs with
+  | nil => simpa [varsToks] using hT
+  | cons v r =>
+    have hs : varsToks (v :: r) = varToks v ++ varsToks r := by simp [varsToks]
+    cases hg : v.isGlobal
+    · exact Or.inl ⟨"local", _, by rw [hs, varToks_eq, hg]; rfl⟩
+    · exact Or.inl ⟨"global", _, by rw [hs, varToks_eq, hg]; rfl⟩
+
+theorem declStart_funcs (fmt : Nat → List Char) (fs : List Func) : DeclStart (funcsToks fmt fs ++ [.eof]) := by
+  cases fs with
+  | nil => exact Or.inr (by simp [funcsToks])
+  | cons f r =>
+    have hs : funcsToks fmt (f :: r) = funcToks fmt f ++ funcsToks fmt r := by simp [funcsToks]
+    cases hg : f.isGlobal
+    · exact Or.inl ⟨"local", _, by rw [hs, funcToks_eq, hg]; rfl⟩
+    · exact Or.inl ⟨"global", _, by rw [hs, funcToks_eq, hg]; rfl⟩
+
+theorem parseDecls_externs (fparse : String → Option Nat) (fuel : Nat) :
+    ∀ (es : List Extern) (n : Nat) (acc : MAcc) (gdone : List String) (T : Toks),
+      PreInv gdone acc.st → (gdone ++ es.map (·.name)).Nodup → DeclStart T →
+      (externsToks es ++ T).length < n → (externsToks es ++ T).length < fuel →
+      ∃ st' n', T.length < n' ∧
+        parseDecls fparse fuel n acc (externsToks es ++ T) =
+          parseDecls fparse fuel n' { acc with st := st', externs := acc.externs ++ es } T ∧
+        PreInv ((es.map (·.name)).reverse ++ gdone) st' := by
+  intro es
+  induction es with
+  | nil =>
+    intro n acc gdone T h _ _ hn _
+    exact ⟨acc.st, n, by simpa [externsToks] using hn, by simp [externsToks], by simpa using h⟩
+  | cons e es ih =>
+    intro n acc gdone T h hnd hT hn hfuel
+    cases n with
+    | zero => simp at hn
+    | succ k =>
+      have hfresh : e.name ∉ gdone := by
+        have := (List.nodup_append.1 hnd).2.2
+        intro hm; exact this e.name hm e.name (by simp) rfl
+      have hsplit : externsToks (e :: es) ++ T = externToks e ++ (externsToks es ++ T) := by simp [externsToks]
+      have hR := declStart_externs es T hT
+      obtain ⟨s1, e1, h1⟩ := parseExternal_ok h fuel e (externsToks es ++ T) hfresh hR.nf (by rw [← hsplit]; exact hfuel)
+      have hnd1 : ((e.name :: gdone) ++ es.map (·.name)).Nodup := by
+        have h1 := hnd
+        simp only [List.map_cons] at h1
+        have : (gdone ++ e.name :: es.map (·.name)).Perm ((e.name :: gdone) ++ es.map (·.name)) := by
+          simpa using List.perm_middle
+        exact this.nodup_iff.1 h1
+      have hlen1 : (externToks e).length ≥ 1 := by rw [externToks_eq]; simp
+      have hk : (externsToks es ++ T).length < k := by
+        rw [hsplit] at hn; simp only [List.length_append] at hn ⊢; omega
+      have hf' : (externsToks es ++ T).length < fuel := by
+        rw [hsplit] at hfuel; simp only [List.length_append] at hfuel ⊢; omega
+      obtain ⟨st', n', hn', e2, h2⟩ := ih k { acc with st := s1, externs := acc.externs ++ [e] }
+        (e.name :: gdone) T h1 hnd1 hT hk hf'
+      refine ⟨st', n', hn', ?_, by simpa using h2⟩
+      rw [parseDecls]
+      have hpk : (peek (externsToks (e :: es) ++ T)).typ ≠ "eof" := by rw [hsplit, externToks_eq]; simp
+      have hkw : atKeyword "external" (externsToks (e :: es) ++ T) = true := by rw [hsplit, externToks_eq]; simp
+      simp only [hpk, if_false, hkw, if_true, bind, Except.bind]
+      rw [hsplit, e1]
+      simp only [e2, List.append_assoc, List.cons_append, List.nil_append]
+
+theorem parseDecls_vars (fparse : String → Option Nat) (fuel : Nat) :
+    ∀ (vs : List GVar) (n : Nat) (acc : MAcc) (gdone : List String) (T : Toks),
+      PreInv gdone acc.st → (gdone ++ vs.map (·.name)).Nodup → DeclStart T →
+      (∀ v ∈ vs, ∀ ps, v.init = some ps → ∀ p ∈ ps, partBytesOk p) →
+      (varsToks vs ++ T).length < n → (varsToks vs ++ T).length < fuel →
+      ∃ st' n', T.length < n' ∧
+        parseDecls fparse fuel n acc (varsToks vs ++ T) =
+          parseDecls fparse fuel n' { acc with st := st', vars := acc.vars ++ vs } T ∧
+        PreInv ((vs.map (·.name)).reverse ++ gdone) st' := by
+  intro vs
+  induction vs with
+  | nil =>
+    intro n acc gdone T h _ _ _ hn _
+    exact ⟨acc.st, n, by simpa [varsToks] using hn, by simp [varsToks], by simpa using h⟩
+  | cons v vs ih =>
+    intro n acc gdone T h hnd hT hb hn hfuel
+    cases n with
+    | zero => simp at hn
+    | succ k =>
+      have hfresh : v.name ∉ gdone := by
+        have := (List.nodup_append.1 hnd).2.2
+        intro hm; exact this v.name hm v.name (by simp) rfl
+      have hsplit : varsToks (v :: vs) ++ T = varToks v ++ (varsToks vs ++ T) := by simp [varsToks]
+      have hR := declStart_vars vs T hT
+      obtain ⟨s1, e1, h1⟩ := parseVariable_ok h fuel v (varsToks vs ++ T) hfresh hR (by rw [← hsplit]; exact hfuel)
+        (hb v (by simp))
+      have hnd1 : ((v.name :: gdone) ++ vs.map (·.name)).Nodup := by
+        have h1 := hnd
+        simp only [List.map_cons] at h1
+        have : (gdone ++ v.name :: vs.map (·.name)).Perm ((v.name :: gdone) ++ vs.map (·.name)) := by
+          simpa using List.perm_middle
+        exact this.nodup_iff.1 h1
+      have hlen1 : (varToks v).length ≥ 1 := by rw [varToks_eq]; simp
+      have hk : (varsToks vs ++ T).length < k := by
+        rw [hsplit] at hn; simp only [List.length_append] at hn ⊢; omega
+      have hf' : (varsToks vs ++ T).length < fuel := by
+        rw [hsplit] at hfuel; simp only [List.length_append] at hfuel ⊢; omega
+      obtain ⟨st', n', hn', e2, h2⟩ := ih k { acc with st := s1, vars := acc.vars ++ [v] }
+        (v.name :: gdone) T h1 hnd1 hT (fun x hx => hb x (by simp [hx])) hk hf'
+      refine ⟨st', n', hn', ?_, by simpa using h2⟩
+      rw [parseDecls, hsplit]
+      have hvt : varToks v ++ (varsToks vs ++ T) =
+          bindingTok v.isGlobal :: Tok.id "variable" :: ((varToks v ++ (varsToks vs ++ T)).tail.tail) := by
+        rw [varToks_eq]; rfl
+      have htl : (varToks v ++ (varsToks vs ++ T)).tail = Tok.id "variable" :: (varToks v ++ (varsToks vs ++ T)).tail.tail := by
+        rw [varToks_eq]; rfl
+      rw [htl] at e1
+      rw [hvt]
+      cases hg : v.isGlobal
+      · rw [hg] at e1
+        simp only [bindingTok, Bool.false_eq_true, if_false, peek_cons, typ_id, String.reduceEq, atKeyword_id,
+          decide_false, decide_true, if_true, consumeKeyword_ok _ _ (show NF (Tok.id "variable" :: _) by simp),
+          bind, Except.bind, pure, Except.pure, e1, e2, List.append_assoc, List.cons_append, List.nil_append]
+      · rw [hg] at e1
+        simp only [bindingTok, if_true, peek_cons, typ_id, String.reduceEq, atKeyword_id,
+          decide_false, decide_true, Bool.false_eq_true, if_false,
+          consumeKeyword_ok _ _ (show NF (Tok.id "variable" :: _) by simp),
+          bind, Except.bind, pure, Except.pure, e1, e2, List.append_assoc, List.cons_append, List.nil_append]
+
+theorem parseDecls_funcs (fmt : Nat → List Char) (fparse : String → Option Nat) (fuel : Nat) :
+    ∀ (fs : List Func) (n : Nat) (acc : MAcc),
+      (∀ f ∈ fs, ∀ b ∈ f.blocks, ∀ i ∈ b.instrs, PrintOk fmt fparse i) →
+      (funcsToks fmt fs ++ [Tok.eof]).length < n → (funcsToks fmt fs ++ [Tok.eof]).length < fuel →
+      parseDecls fparse fuel n acc (funcsToks fmt fs ++ [.eof]) =
+        (match funcsWith blockText acc.st (fs.map normPhiFunc) with
+         | .ok s => .ok ({ acc with st := s }, [.eof])
+         | .error e => .error e) := by
+  intro fs
+  induction fs with
+  | nil =>
+    intro n acc _ hn _
+    cases n with
+    | zero => simp at hn
+    | succ k => simp [funcsToks, parseDecls, funcsWith, pure, Except.pure]
+  | cons f fs ih =>
+    intro n acc hp hn hfuel
+    cases n with
+    | zero => simp at hn
+    | succ k =>
+      have hsplit : funcsToks fmt (f :: fs) ++ [Tok.eof] = funcToks fmt f ++ (funcsToks fmt fs ++ [Tok.eof]) := by
+        simp [funcsToks]
+      have hR := declStart_funcs fmt fs
+      have e1 := parseFunction_eq fmt fparse fuel acc.st f (funcsToks fmt fs ++ [Tok.eof]) (hp f (by simp))
+        (by rw [← hsplit]; exact hfuel) hR.nf
+      have hlen1 : (funcToks fmt f).length ≥ 1 := by rw [funcToks_eq]; simp
+      have hk : (funcsToks fmt fs ++ [Tok.eof]).length < k := by
+        rw [hsplit] at hn; simp only [List.length_append] at hn ⊢; omega
+      have hf' : (funcsToks fmt fs ++ [Tok.eof]).length < fuel := by
+        rw [hsplit] at hfuel; simp only [List.length_append] at hfuel ⊢; omega
+      rw [parseDecls, hsplit]
+      have hft : funcToks fmt f ++ (funcsToks fmt fs ++ [Tok.eof]) =
+          bindingTok f.isGlobal :: (funcToks fmt f ++ (funcsToks fmt fs ++ [Tok.eof])).tail := by
+        rw [funcToks_eq]; rfl
+      have hkw : ∃ x r, (funcToks fmt f ++ (funcsToks fmt fs ++ [Tok.eof])).tail = Tok.id x :: r ∧
+          (x = "function" ∨ x = "procedure") := by
+        rw [funcToks_eq]
+        cases hr : f.ret with
+        | none => exact ⟨"procedure", _, rfl, Or.inr rfl⟩
+        | some t => exact ⟨"function", _, rfl, Or.inl rfl⟩
+      obtain ⟨x, r, hxr, hx⟩ := hkw
+      rw [hft]
+      simp only [List.map_cons, funcsWith]
+      have hvar : ¬ x = "variable" := by rcases hx with rfl | rfl <;> decide
+      have hfp : (decide (x = "function") || decide (x = "procedure")) = true := by
+        rcases hx with rfl | rfl <;> decide
+      rw [hxr] at e1 ⊢
+      cases hg : f.isGlobal
+      · rw [hg] at e1
+        simp only [bindingTok, Bool.false_eq_true, if_false, peek_cons, typ_id, String.reduceEq, atKeyword_id,
+          decide_false, decide_true, if_true, consumeKeyword_ok _ _ (show NF (Tok.id x :: r) by simp),
+          bind, Except.bind, pure, Except.pure, hvar, hfp, e1]
+        cases funcWith blockText acc.st (normPhiFunc f) with
+        | error e => rfl
+        | ok s => exact ih k { acc with st := s } (fun g hg' => hp g (by simp [hg'])) hk hf'
+      · rw [hg] at e1
+        simp only [bindingTok, if_true, peek_cons, typ_id, String.reduceEq, atKeyword_id,
+          decide_false, decide_true, Bool.false_eq_true, if_false,
+          consumeKeyword_ok _ _ (show NF (Tok.id x :: r) by simp),
+          bind, Except.bind, pure, Except.pure, hvar, hfp, e1]
+        cases funcWith blockText acc.st (normPhiFunc f) with
+        | error e => rfl
+        | ok s => exact ih k { acc with st := s } (fun g hg' => hp g (by simp [hg'])) hk hf'
+
+/-! ## sorting the inputs of a phi keeps a function inside the fragment -/
+
+theorem insertIn_perm (q : String × Operand) (l : List (String × Operand)) : (insertIn q l).Perm (q :: l) := by
+  induction l with
+  | nil => exact List.Perm.refl _
+  | cons p r ih =>
+    simp only [insertIn]
+    split
+    · exact List.Perm.refl _
+    · exact (List.Perm.cons p ih).trans (List.Perm.swap q p r)
+
+theorem sortIns_perm (l : List (String × Operand)) : (sortIns l).Perm l := by
+  induction l with
+  | nil => exact List.Perm.refl _
+  | cons q r ih => exact (insertIn_perm q (sortIns r)).trans (List.Perm.cons q ih)
+
+theorem all_of_mem_iff {α : Type} (p : α → Bool) (l1 l2 : List α) (h : ∀ x, x ∈ l1 ↔ x ∈ l2) :
+    l1.all p = l2.all p := by
+  rw [Bool.eq_iff_iff, List.all_eq_true, List.all_eq_true]
+  exact ⟨fun h1 x hx => h1 x ((h x).2 hx), fun h1 x hx => h1 x ((h x).1 hx)⟩
+
+theorem dst_normPhiInstr (i : Instr) : (normPhiInstr i).dst? = i.dst? := by cases i <;> rfl
+theorem isTerminator_normPhiInstr (i : Instr) : (normPhiInstr i).isTerminator = i.isTerminator := by cases i <;> rfl
+
+theorem operands_normPhi_mem (i : Instr) (o : Operand) : o ∈ operands (normPhiInstr i) ↔ o ∈ operands i := by
+  cases i with
+  | phi d ty ins =>
+    simp only [normPhiInstr, operands]
+    exact ((sortIns_perm ins).map (·.2)).mem_iff
+  | _ => rfl
+
+theorem blockRefs_normPhi_mem (i : Instr) (b : String) : b ∈ blockRefsOf (normPhiInstr i) ↔ b ∈ blockRefsOf i := by
+  cases i with
+  | phi d ty ins =>
+    simp only [normPhiInstr, blockRefsOf]
+    exact ((sortIns_perm ins).map (·.1)).mem_iff
+  | _ => rfl
+
+theorem typedOk_normPhi (G : List String) (env : TyEnv) (i : Instr) :
+    typedOk G env (normPhiInstr i) = typedOk G env i := by
+  cases i with
+  | phi d ty ins =>
+    simp only [normPhiInstr, typedOk]
+    exact all_of_mem_iff _ _ _ (fun x => (sortIns_perm ins).mem_iff)
+  | _ => rfl
+
+theorem phiKeys_normPhi (i : Instr) :
+    nodupB ((normPhiInstr i).phiIns.map (·.1)) = nodupB (i.phiIns.map (·.1)) := by
+  cases i with
+  | phi d ty ins =>
+    simp only [normPhiInstr, Instr.phiIns]
+    rw [Bool.eq_iff_iff, nodupB_iff, nodupB_iff]
+    exact ((sortIns_perm ins).map (·.1)).nodup_iff
+  | _ => rfl
+
+theorem instrDsts_map_normPhi (l : List Instr) : instrDsts (l.map normPhiInstr) = instrDsts l := by
+  induction l with
+  | nil => rfl
+  | cons i r ih =>
+    simp only [List.map_cons, instrDsts, List.filterMap_cons, dst_normPhiInstr]
+    simp only [instrDsts] at ih
+    rw [ih]
+
+theorem instrsOf_normPhi (bs : List Block) :
+    instrsOf (bs.map normPhiBlock) = (instrsOf bs).map normPhiInstr := by
+  induction bs with
+  | nil => rfl
+  | cons b r ih =>
+    simp only [List.map_cons, instrsOf, List.flatMap_cons, normPhiBlock, List.map_append]
+    simp only [instrsOf] at ih
+    rw [ih]
+
+theorem noEarlyTerminator_map_normPhi (l : List Instr) :
+    noEarlyTerminator (l.map normPhiInstr) = noEarlyTerminator l := by
+  induction l with
+  | nil => rfl
+  | cons i r ih =>
+    cases r with
+    | nil => rfl
+    | cons j r' =>
+      simp only [List.map_cons, noEarlyTerminator_cons2, isTerminator_normPhiInstr]
+      simp only [List.map_cons] at ih
+      rw [ih]
+
+theorem funcFacts_normPhi {G : List String} {f : Func} (F : FuncFacts G f) : FuncFacts G (normPhiFunc f) := by
+  have hbn : bnamesOf (normPhiFunc f).blocks = bnamesOf f.blocks := by
+    simp [normPhiFunc, bnamesOf, normPhiBlock, Function.comp]
+  have hinstrs : instrsOf (normPhiFunc f).blocks = (instrsOf f.blocks).map normPhiInstr := instrsOf_normPhi f.blocks
+  have hdsts : instrDsts (instrsOf (normPhiFunc f).blocks) = instrDsts (instrsOf f.blocks) := by
+    rw [hinstrs, instrDsts_map_normPhi]
+  have henv : Func.env (normPhiFunc f) = Func.env f := by
+    show f.params ++ instrDsts (instrsOf (normPhiFunc f).blocks) = f.params ++ instrDsts (instrsOf f.blocks)
+    rw [hdsts]
+  have hmem : ∀ i', i' ∈ instrsOf (normPhiFunc f).blocks → ∃ i, i ∈ instrsOf f.blocks ∧ i' = normPhiInstr i := by
+    intro i' hi'
+    rw [hinstrs] at hi'
+    obtain ⟨i, hi, rfl⟩ := List.mem_map.1 hi'
+    exact ⟨i, hi, rfl⟩
+  refine ⟨by rw [henv]; exact F.ndEnv, by rw [hbn, hdsts]; exact F.ndNames, by rw [henv]; exact F.disj,
+    ?_, ?_, ?_, ?_, ?_, ?_⟩
+  · intro i' hi' o ho
+    obtain ⟨i, hi, rfl⟩ := hmem i' hi'
+    rw [henv]
+    exact F.ops i hi o ((operands_normPhi_mem i o).1 ho)
+  · intro i' hi' b hb
+    obtain ⟨i, hi, rfl⟩ := hmem i' hi'
+    rw [hbn]
+    exact F.refs i hi b ((blockRefs_normPhi_mem i b).1 hb)
+  · intro i' hi'
+    obtain ⟨i, hi, rfl⟩ := hmem i' hi'
+    rw [henv, typedOk_normPhi]
+    exact F.typed i hi
+  · intro b' hb'
+    obtain ⟨b, hb, rfl⟩ := List.mem_map.1 (show b' ∈ f.blocks.map normPhiBlock from hb')
+    show noEarlyTerminator (b.instrs.map normPhiInstr) = true
+    rw [noEarlyTerminator_map_normPhi]
+    exact F.term b hb
+  · show (f.blocks.map normPhiBlock).head?.map (·.name) = some f.entry
+    rw [← F.entry]
+    cases f.blocks <;> rfl
+  · intro i' hi'
+    obtain ⟨i, hi, rfl⟩ := hmem i' hi'
+    rw [phiKeys_normPhi]
+    exact F.phi i hi
+
+/-! ## the theorem at the level of tokens -/
+
+theorem toksModule_eq (fmt : Nat → List Char) (m : Module) :
+    toksModule fmt m = .id "module" :: .id m.name :: .sym ";" ::
+      (externsToks m.externs ++ (varsToks m.vars ++ (funcsToks fmt m.funcs ++ [.eof]))) := by
+  simp [toksModule, externsToks, varsToks, funcsToks]
+
+theorem parseToks_toksModule (fmt : Nat → List Char) (fparse : String → Option Nat) (m : Module)
+    (hcore : fragCore m = true)
+    (hp : ∀ f ∈ m.funcs, ∀ b ∈ f.blocks, ∀ i ∈ b.instrs, PrintOk fmt fparse i) :
+    parseToks fparse (toksModule fmt m) = .ok (normPhi m) := by
+  unfold fragCore at hcore
+  simp only [Bool.and_eq_true, List.all_eq_true] at hcore
+  obtain ⟨⟨hG, hvars⟩, hfuncs⟩ := hcore
+  have hGnd : m.globalNames.Nodup := (nodupB_iff _).1 hG
+  have hnames : m.globalNames = m.externs.map (fun e : Extern => e.name) ++ m.vars.map (fun v : GVar => v.name) ++
+      m.funcs.map (fun f : Func => f.name) := rfl
+  -- the token sequence and the fuel
+  let T3 : Toks := funcsToks fmt m.funcs ++ [Tok.eof]
+  let T2 : Toks := varsToks m.vars ++ T3
+  let T1 : Toks := externsToks m.externs ++ T2
+  have hD3 : DeclStart T3 := declStart_funcs fmt m.funcs
+  have hD2 : DeclStart T2 := declStart_vars m.vars T3 hD3
+  have hD1 : DeclStart T1 := declStart_externs m.externs T2 hD2
+  -- unfold the reader up to the declaration loop; the fuel is the number of tokens + 1
+  rw [toksModule_eq]
+  simp only [parseToks, bind, Except.bind]
+  have hstart : start (Tok.id "module" :: Tok.id m.name :: Tok.sym ";" :: T1) =
+      .ok (Tok.id "module" :: Tok.id m.name :: Tok.sym ";" :: T1) := rfl
+  show (match start (Tok.id "module" :: Tok.id m.name :: Tok.sym ";" :: T1) with
+    | Except.error err => Except.error err
+    | Except.ok ts => _) = _
+  rw [hstart]
+  have hexp : expectSym ";" (Tok.sym ";" :: (externsToks m.externs ++ (varsToks m.vars ++
+      (funcsToks fmt m.funcs ++ [Tok.eof])))) = .ok T1 := expectSym_ok _ _ hD1.nf
+  simp only [consumeKeyword_ok _ _ (show NF (Tok.id m.name :: _) by simp),
+    parseId_ok _ _ (show NF (Tok.sym ";" :: _) by simp), hexp]
+  generalize hFu : (Tok.id "module" :: Tok.id m.name :: Tok.sym ";" :: T1).length + 1 = fuel
+  have hfuel : T1.length < fuel := by rw [← hFu]; simp; omega
+  -- externals
+  have h0 : PreInv [] ({} : MAcc).st := ⟨by simp, rfl, rfl, rfl, rfl⟩
+  have hnd_e : (([] : List String) ++ m.externs.map (fun e : Extern => e.name)).Nodup := by
+    rw [hnames, List.append_assoc] at hGnd
+    simpa using (List.nodup_append.1 hGnd).1
+  obtain ⟨s1, n1, hn1, e1, h1⟩ := parseDecls_externs fparse fuel m.externs fuel {} [] T2 h0 hnd_e hD2 hfuel hfuel
+  -- variables
+  have hnd_v : (((m.externs.map (fun e : Extern => e.name)).reverse ++ []) ++ m.vars.map (fun v : GVar => v.name)).Nodup := by
+    rw [hnames] at hGnd
+    have := (List.nodup_append.1 hGnd).1
+    have hpm : ((m.externs.map (fun e : Extern => e.name)).reverse ++ [] ++ m.vars.map (fun v : GVar => v.name)).Perm
+        (m.externs.map (fun e : Extern => e.name) ++ m.vars.map (fun v : GVar => v.name)) := by
+      simpa using (List.reverse_perm _).append_right _
+    exact hpm.nodup_iff.2 this
+  have hbytes : ∀ v ∈ m.vars, ∀ ps, v.init = some ps → ∀ p ∈ ps, partBytesOk p := by
+    intro v hv ps hps p hpp
+    have := hvars v hv
+    rw [hps] at this
+    have := List.all_eq_true.1 (by simpa [initOk] using this) p hpp
+    cases p with
+    | ref n => trivial
+    | bytes bs =>
+      intro x hx
+      have := List.all_eq_true.1 (by simpa using this) x hx
+      simpa [isByte] using this
+  have hfuel2 : T2.length < fuel := by
+    have : T2.length ≤ T1.length := by simp [T1]
+    omega
+  obtain ⟨s2, n2, hn2, e2, h2⟩ := parseDecls_vars fparse fuel m.vars n1
+    { ({} : MAcc) with st := s1, externs := ({} : MAcc).externs ++ m.externs } _ T3 h1 hnd_v hD3 hbytes hn1 hfuel2
+  -- subroutines
+  have hfuel3 : T3.length < fuel := by
+    have : T3.length ≤ T2.length := by simp [T2]
+    omega
+  have e3 := parseDecls_funcs fmt fparse fuel m.funcs n2
+    { ({} : MAcc) with st := s2, externs := ({} : MAcc).externs ++ m.externs, vars := ({} : MAcc).vars ++ m.vars }
+    hp hn2 hfuel3
+  let gdone := (m.vars.map (fun v : GVar => v.name)).reverse ++ ((m.externs.map (fun e : Extern => e.name)).reverse ++ [])
+  have hgd : ∀ x, x ∈ gdone ↔ (x ∈ m.externs.map (fun e : Extern => e.name) ∨ x ∈ m.vars.map (fun v : GVar => v.name)) := by
+    intro x; simp [gdone, or_comm]
+  have hM : MInv m.globalNames gdone [] s2 :=
+    ⟨h2.globals, by intro x t hx; rw [h2.pending] at hx; simp [lookupTy] at hx, h2.funcs, h2.cur, h2.blocks⟩
+  have hnmap : (m.funcs.map normPhiFunc).map (fun f : Func => f.name) = m.funcs.map (fun f : Func => f.name) := by
+    simp [normPhiFunc, Function.comp]
+  have hnd_f : (gdone ++ (m.funcs.map normPhiFunc).map (fun f : Func => f.name)).Nodup := by
+    rw [hnmap]
+    have hpm : (gdone ++ m.funcs.map (fun f : Func => f.name)).Perm m.globalNames := by
+      rw [hnames]
+      apply List.Perm.append_right
+      simp only [gdone, List.append_nil]
+      exact ((List.reverse_perm _).append (List.reverse_perm _)).trans List.perm_append_comm
+    exact hpm.nodup_iff.2 hGnd
+  obtain ⟨s3, e4, hM3, _⟩ := funcsWith_spec blockText_spec hGnd (m.funcs.map normPhiFunc) gdone [] s2 hM
+    (by intro x hx; rw [hnames]; rcases (hgd x).1 hx with h' | h' <;> simp [h'])
+    (by
+      intro f hf
+      obtain ⟨g, hg, rfl⟩ := List.mem_map.1 hf
+      rw [hnames]; simp only [List.mem_append, List.mem_map]; exact Or.inr ⟨g, hg, rfl⟩)
+    hnd_f (by intro g hg; simp at hg)
+    (by
+      intro f hf
+      obtain ⟨g, hg, rfl⟩ := List.mem_map.1 hf
+      exact funcFacts_normPhi (funcFacts_of_core (hfuncs g hg)))
+  have hpend : s3.pending = [] := by
+    apply pending_nil_of_no_entry
+    intro x t hx
+    obtain ⟨hxG, hxn, _⟩ := hM3.pend x t hx
+    apply hxn
+    rw [hM3.globals x, hnmap]
+    rw [hnames] at hxG
+    simp only [List.mem_append, List.mem_reverse] at hxG ⊢
+    rcases hxG with (h' | h') | h'
+    · exact Or.inr ((hgd x).2 (Or.inl h'))
+    · exact Or.inr ((hgd x).2 (Or.inr h'))
+    · exact Or.inl h'
+  have hfin : finishFuncs s3 = .ok (m.funcs.map normPhiFunc) := by
+    simp [finishFuncs, hpend, danglePending, hM3.funcs]
+  have eall := e1.trans (e2.trans e3)
+  have eall' : parseDecls fparse fuel fuel {} T1 = _ := eall
+  rw [eall', e4]
+  simp [hfin, pure, Except.pure, normPhi]
+
 end Proofs.IRText
